@@ -45,6 +45,7 @@ type hcase struct {
 
 const (
 	longMs  = 30000           // timeout of requests that are meant to be answered: load alone never expires it
+	probeMs = 2000            // timeout of warm-up probes
 	shortMs = 120             // timeout of requests the upstream never answers in time
 	evWait  = 5 * time.Second // event waits; a run in which one wait failed goes on with short waits
 	maxLost = 24              // after this many failed waits the driver stops taking new cases (reported)
@@ -103,13 +104,20 @@ type env struct {
 	lost0  int64
 	// a missing reply becomes a finding only after a wait no load explains; the drivers afford that a few times
 	patientLeft int
+	silent      []*rq // warm-up probes without a reply so far
 }
 
-const patientWait = 30 * time.Second // longer than longMs: a request the proxy only ends by its timeout still gets its reply
+const patientWait = 36 * time.Second // longer than longMs: a request the proxy only ends by its timeout still gets its reply
 
 // settle is called at the end of a run with the requests that still have no reply: the first runs of a driver in which
 // that happens wait very long for them; it reports whether the silence may be judged.
 func (e *env) settle(pending []*rq) bool {
+	for _, q := range e.silent {
+		if !q.poll() {
+			pending = append(pending, q)
+		}
+	}
+	e.silent = nil
 	if len(pending) == 0 {
 		return true
 	}
@@ -175,9 +183,14 @@ func (e *env) warm(cl *xc02.Client, name string) bool {
 		e.probes++
 		tok := fmt.Sprintf("p%s-%d", name, e.probes)
 		q := &rq{tok: tok, dsid: e.freshID(), cl: cl}
-		q.ch = cl.Send(q.dsid, tok, "ok:0", longMs, false, true)
+		// a probe that reaches an upstream connection the peer is just closing may only be ended by its own timeout:
+		// probeMs is well below the event wait, and a probe still silent after that joins the requests settle waits for
+		q.ch = cl.Send(q.dsid, tok, "ok:0", probeMs, false, true)
 		if q.wait(e.w(0)) && q.rep.OK {
 			return true
+		}
+		if !q.got {
+			e.silent = append(e.silent, q)
 		}
 		time.Sleep(10 * time.Millisecond)
 	}
